@@ -1041,7 +1041,8 @@ Proof.
     rewrite expire_one_acts_only_when_expired by (apply Hl; now left).
     apply IH. intros; apply Hl; now right. }
   apply Hl. intros t Hin. apply filter_In in Hin as [Hin Hf].
-  apply andb_true_iff in Hf as [Hp Ho]. apply H; auto. lia.
+  apply andb_true_iff in Hf as [Hp Ho]. apply H; auto; [lia|].
+  unfold expirable in Ho. apply andb_true_iff in Ho as [Ho _]. exact Ho.
 Qed.
 
 (* ------------------------------------------------------------------ C15: Fresh is an invariant *)
@@ -1220,7 +1221,7 @@ Qed.
 
 Lemma expire_fresh w tip : Fresh w -> Fresh (expire w tip) /\ child_le w (expire w tip).
 Proof.
-  unfold expire. generalize (filter (fun t => (t_parent t =? w_active w) && outstanding t) (w_log w)).
+  unfold expire. generalize (filter (fun t => (t_parent t =? w_active w) && expirable t) (w_log w)).
   intros l. revert w. induction l as [|t r IH]; intros w Hf; cbn [fold_left];
     [split; [exact Hf|apply child_le_refl]|].
   assert (H1 : Fresh (expire_one tip w t) /\ child_le w (expire_one tip w t)).
@@ -1587,7 +1588,7 @@ Proof.
     destruct (find _ _); cbn [fst]; exact Hlate.
   - cbn [fst]. exact Hn.
   - cbn [fst]. unfold expire.
-    generalize (filter (fun t => (t_parent t =? w_active w) && outstanding t) (w_log w)).
+    generalize (filter (fun t => (t_parent t =? w_active w) && expirable t) (w_log w)).
     intros l. revert w Hn. induction l as [|t r IH]; intros w Hn; cbn [fold_left]; [exact Hn|].
     apply IH. unfold expire_one. destruct (t_ttl t); [|exact Hn]. destruct (_ <=? _); [|exact Hn].
     unfold cancel. destruct (retrieve_txs w _ _ _) as [|t1 [|t2 r2]]; cbn [fst]; try exact Hn.
